@@ -341,6 +341,8 @@ class MixedLogReader(object):
                     elif require_system_time and (payload is None or payload.get_system_time_ns() is None):
                         self.logger.trace("Skipping %s message. System time requested." % header.get_type_string())
                         continue
+                else:
+                    payload = None
 
                 # Extract P1 time if available.
                 p1_time = payload.get_p1_time() if payload is not None else Timestamp()
